@@ -11,7 +11,7 @@
 import json, os, subprocess, sys, shutil, time, re
 
 V = os.path.dirname(os.path.dirname(os.path.abspath(__file__)))
-SEEDED = os.path.join(V, "seeded")
+SEEDED = os.environ.get("VERIF_SEEDED", os.path.join(V, "seeded"))  # a snapshot of /verif can evaluate into the live seeded/ directory
 ENV = dict(os.environ, GOFLAGS="-mod=mod", GOPROXY="off", GOSUMDB="off")
 
 
